@@ -22,6 +22,7 @@ from __future__ import annotations
 
 import contextlib
 import contextvars
+import dataclasses
 import hashlib
 import io
 import json
@@ -64,6 +65,17 @@ class Sub2(Base):
     def __init__(self, n: int = 3, k: float = 0.5):
         super().__init__(n)
         self.k = k
+
+
+@dataclasses.dataclass
+class Data:
+    a: int = 1
+    b: int = 2
+
+
+def fn_d(d: Optional[Data] = None):
+    """a dataclass-typed parameter taken from a signature (parser A: --fn.d.a, --fn.d.b, --fn.d=<dict>)."""
+    return d
 
 
 class Adam:
@@ -133,6 +145,7 @@ def build(root: str, d: Optional[str] = None) -> dict:
         p.add_argument("--grid", type=List[List[float]], default=[[1, 2], [3, 4]])
         p.add_argument("--table", type=List[Dict[str, float]], default=[{"w": 1}])
         p.add_argument("--stages", type=List[List[Base]], default=[[{"class_path": MODNAME + ".Sub1", "init_args": {"m": "q"}}]])
+        p.add_function_arguments(fn_d, "fn")  # dataclass-typed argument with nested options, Optional[Data] = None
         p.link_arguments("x", "cls.init_args.n", compute_fn=link_fn)
         sc = p.add_subcommands(required=False)
         a = ArgumentParser(exit_on_error=False)
@@ -152,6 +165,7 @@ def build(root: str, d: Optional[str] = None) -> dict:
     p.add_argument("--cls", type=Base)  # class-typed, NO default class: a spec without class_path must be rejected
     p.add_argument("--grid", type=List[List[float]], default=[[5, 6]])
     p.add_function_arguments(make_opt, "opt")  # conditional defaults
+    p.add_argument("--d", type=Data, default=Data(a=3))  # a plain dataclass-typed argument
     return {"B": p}
 
 
@@ -179,7 +193,11 @@ PIECES = {
         "pcflag": [["--print_config=bogus"]],
         "help": [["--help"], ["-h"]],
         "clshelp": [["--cls.help=Sub2"], ["--cls.help", "Sub1"]],
-        "shtab": [["--print_shtab=bash"], ["--print_shtab", "bash"]],  # (zsh: the generator itself fails on this parser, a C03 matter)
+        "shtab": [["--print_shtab=bash"], ["--print_shtab", "bash"]],
+        "dc1": [["--fn.d.a=6"], ["--fn.d.b=9"], ["--fn.d.a", "8"]],
+        "dcn": [["--fn.d.a=5", "--fn.d.b=7"], ["--fn.d.b=4", "--fn.d.a=3"]],
+        "dcd": [['--fn.d={"a": 4, "b": 8}'], ["--fn.d", '{"b": 6}']],
+        "cfgdc": [["--cfg", '{"fn": {"d": {"a": 5, "b": 7}}}'], ["--cfg", '{"fn": {"d": {"b": 3}}}']],  # (zsh: the generator itself fails on this parser, a C03 matter)
         "cfg": [["--cfg", '{"w": [7]}'], ["--cfg=w: [8]"], ["--cfg", "a_ok.yaml"]],
         "cfgbad": [["--cfg", '{"w": "bad"}'], ["--cfg", "a_bad.yaml"], ["--cfg=no_such_file.yaml"],
                    ["--cfg", '{"cls": {"init_args": {"k": "not a number"}}}']],
@@ -205,6 +223,10 @@ PIECES = {
     "B": {
         "ok": [["--v=2"], ["--v", "3"], ["--u=[a,b]"], ["--u+=c"], ["--grid=[[7, 8]]"], ["--cls=Sub1"], ["--opt.kind=sgd"], ["--opt.lr=0.5"]],
         "shtab": [["--print_shtab=bash"]],
+        "dg1": [["--d.a=6"], ["--d.b=9"]],  # add_argument(type=Data) expands into one plain option per field
+        "dgn": [["--d.a=5", "--d.b=7"]],
+        "dcd": [['--d={"a": 4, "b": 8}']],
+        "cfgdc": [["--cfg", '{"d": {"a": 5, "b": 7}}']],
         "sel": [['--cls={"class_path":"Sub2","init_args":{"k":1.5}}'], ["--cls", '{"class_path": "Sub2", "init_args": {"k": 1.25}}']],
         "bad": [["--v=bad"], ["--u={}"]],
         "unk": [["--nope=1"]],
@@ -217,6 +239,8 @@ PIECES = {
 }
 FILES = {"a_ok.yaml": "w: [9]\n", "a_bad.yaml": "x: bad\n", "sub_ok.yaml": "y: 6\n", "b_ok.yaml": "u: [f]\n", "b_bad.yaml": "v: bad\n"}
 # class specs for the class-typed key `cls` of both parsers, given as a configuration text (parse_string) or file (parse_path)
+# fields of the dataclass-typed argument given as a configuration (object / text / file / environment variable)
+DC = {"dc1": [{"a": 6}, {"b": 9}], "dcn": [{"a": 5, "b": 7}, {"b": 4, "a": 3}]}
 SPEC = {"full": [{"cls": {"class_path": "Sub2"}}, {"cls": {"class_path": MODNAME + ".Sub2", "init_args": {}}}],
         "short": [{"cls": {"init_args": {"k": 3.5}}}]}
 ENVVAR = {"A": "APP_W", "B": "OTH_V"}
@@ -265,7 +289,10 @@ def concretize(ab: dict, rnd) -> dict:
         elif c["kwargs"]["env"]:
             c["environ"] = rnd.choice([{}, {ENVVAR[p]: "[5]" if p == "A" else "5"}])
     elif m in ("parse_object", "parse_string", "parse_path", "parse_env"):
-        if ab.get("spec", "none") != "none":
+        if ab.get("spec", "none") in DC:
+            fields = rnd.choice(DC[ab["spec"]])
+            obj = {"fn": {"d": fields}} if p == "A" else {"d": fields}
+        elif ab.get("spec", "none") != "none":
             obj = rnd.choice(SPEC[ab["spec"]])
         elif ab["pre"] == "fail":
             obj = rnd.choice([{key1: "bad"}] + ([{"w": "bad"}, {"cls": {"class_path": "NoSuchClass"}}] if p == "A" else [{"u": 3}]))
@@ -281,7 +308,9 @@ def concretize(ab: dict, rnd) -> dict:
             obj = rnd.choice([{key1: 3}, {key1: 4}] + ([{"w": [1, 2]}, {"cls": {"class_path": "Sub2", "init_args": {"k": 2.5}}}, {}] if p == "A" else [{"u": ["q"]}]))
         if m == "parse_env":  # only flat, environment-expressible variants
             pre = "APP_" if p == "A" else "OTH_"
-            if ab["pre"] == "fail":
+            if ab.get("spec", "none") in DC:
+                obj = {("APP_FN__D" if p == "A" else "OTH_D"): json.dumps(rnd.choice(DC[ab["spec"]]))}
+            elif ab["pre"] == "fail":
                 obj = {pre + key1.upper(): "bad"}
             elif ab["sel"] == "a":
                 obj = {"APP_SUBCOMMAND": "a", "APP_A__Y": "3"}
@@ -685,7 +714,7 @@ def scenarios(ops: dict) -> list:
     """targeted histories, generated generically from the model's call universe:
     (1) every call of the universe that does NOT return normally on a fresh parser (error, exit 2, help / config / completion
         script printed, raise), followed by the probe calls on the same parser and a parse on the other parser;
-    (2) default config file written, a help-printing call (--help, format_help(), class help), then the file edited / removed /
+    (4) see below; (2) default config file written, a help-printing call (--help, format_help(), class help), then the file edited / removed /
         left alone, then the probe calls (what the help formatter or any cache took from the file must not stick)."""
     out = []
     for oid in sorted(ops):
@@ -693,6 +722,12 @@ def scenarios(ops: dict) -> list:
         if o["m"] != "environment" and o.get("_ref", "return") != "return":
             other = "B" if o["p"] == "A" else "A"
             out.append([dict(o)] + probes_for(o["p"]) + [AB("parse_args", other, items=["ok"])])
+    for p in ROOTS:  # (4) the dataclass-typed argument: every way of setting it, then a call that sets ONE field (or none)
+        one, many = ("dc1", "dcn") if p == "A" else ("dg1", "dgn")
+        setters = ([AB("parse_args", p, items=[k]) for k in (one, many, "dcd", "cfgdc")]
+                   + [AB(m, p, spec=sp) for m in ("parse_object", "parse_string", "parse_env") for sp in ("dc1", "dcn")])
+        for o1 in setters:
+            out.append([o1, AB("parse_args", p, items=[one]), AB("parse_string", p, spec="dc1"), AB("parse_args", p), AB("get_defaults", p)])
     for p in ROOTS:  # (3) the completion script is printed, then everything is asked again (recorded ShtabResidue)
         if not any(o["p"] == p and "shtab" in o["items"] for o in ops.values()):
             out.append([AB("parse_args", p, items=["shtab"])] + probes_for(p) + [AB("format_help", p), AB("parse_args", "B" if p == "A" else "A", items=["ok"])])
@@ -723,7 +758,7 @@ def random_abstract(rnd, maxitems=4) -> dict:
         ab["file"] = rnd.choice(["v1", "v1", "v2", "absent"])
     elif m == "parse_args":
         kinds = (["ok", "ok", "ok", "sel", "sel", "bad", "unk", "pc", "pc", "pcflag", "help", "help", "cfg", "cfgbad", "cfgbad"]
-                 + (["clshelp", "ncls"] if p == "A" else []) + (["shtab"] if rnd.random() < 0.12 else []))
+                 + (["dc1", "dc1", "dcn"] if p == "A" else ["dg1", "dg1", "dgn"]) + ["dcd", "cfgdc"] + (["clshelp", "ncls"] if p == "A" else []) + (["shtab"] if rnd.random() < 0.12 else []))
         ab["items"] = [rnd.choice(kinds) for _ in range(rnd.randint(0, maxitems))]
         if "clshelp" in ab["items"]:  # whatever follows --cls.help is handed to a throw-away help parser: keep it last
             ab["items"] = ab["items"][: ab["items"].index("clshelp") + 1]
@@ -748,7 +783,9 @@ def random_abstract(rnd, maxitems=4) -> dict:
             ab["late"] = "fail"
     elif m in ("parse_object", "parse_string", "parse_path", "parse_env"):
         r = rnd.random()
-        if m in ("parse_string", "parse_path") and rnd.random() < 0.45:  # a class spec for `cls`, full or without class_path
+        if m != "parse_path" and rnd.random() < 0.25:  # fields of the dataclass-typed argument
+            ab["spec"] = rnd.choice(["dc1", "dcn"])
+        elif m in ("parse_string", "parse_path") and rnd.random() < 0.45:  # a class spec for `cls`, full or without class_path
             ab["spec"] = rnd.choice(["full", "short"])
             ab["pre"] = "fail" if ab["spec"] == "short" else "ok"
         elif r < 0.2:
